@@ -2,7 +2,7 @@
 handling, fake device that keeps to its protocol). For each request line the manager must write
 exactly one JSON object with an integer errorcode and must not shut down.
 Exit 0 = all answered; non-zero = defect present.
-Run: /venv/bin/python /verif/findings/demo_c03_D1_D9.py [repo_root]"""
+Run: /venv/bin/python /verif/findings/demo_c03_D1_D10.py [repo_root]"""
 import sys, types, io, json, logging
 repo = sys.argv[1] if len(sys.argv) > 1 else "/repo"
 sys.path.insert(0, repo + "/middleware")
